@@ -540,6 +540,29 @@ def run(ctx, facts):
                 early = [(m, d) for m, d in muts.items() if m in before and m != c.point and d != "user closure" and m in r.may]
                 # only mutations from which the callback is still reachable inside the region
                 early = [(m, d) for m, d in early if c.point in reach(b, after(b, m), avoid=r.kills)]
+                # not mutations of the map: freeing an object this body allocated itself and never published (taking a boxed argument
+                # back out of its box); a find_or_put_tree_val whose result says that it found the key and inserted nothing -- the
+                # callback runs only on the non-null edge of that result
+                def harmless(m, d):
+                    mc = b.call_at(m[0]) if m[1] >= b.nstmts(m[0]) else None
+                    if mc is None:
+                        return False
+                    if d == "free":
+                        from .rules_c07 import private_roots
+                        tl = op_root(mc.args[0]) if mc.args else None
+                        return tl is not None and not private_roots(b, tl)
+                    if d == "find_or_put_tree_val":
+                        from .analysis import cond_of, dominated_by_edge
+                        dl = mc.dst_local()
+                        if dl is None:
+                            return False
+                        mine = flow(b).copies_of(dl)
+                        for blk in range(len(b.blocks)):
+                            cd = cond_of(b, blk)
+                            if cd and cd["kind"] == "is_null" and cd.get("arg") in mine and dominated_by_edge(b, c.point, [(blk, cd["false"])]):
+                                return True
+                    return False
+                early = [(m, d) for m, d in early if not harmless(m, d)]
                 ctx.inst("U4", b, "callback precedes the mutations", c.span, not early,
                          "no write/retire on any path from the lock to the callback" if not early else
                          "%s at %s happens before the callback in the same critical section: a panic leaves the entry half-updated" % (early[0][1], b.span_at(early[0][0])))
